@@ -222,9 +222,11 @@ def _ints(xs):
     return "[" + ", ".join("%d" % x for x in xs) + "]"
 
 
-def _capnp_encode(schema, typ, text):
-    r = subprocess.run(["capnp", "encode", "--packed", os.path.join(CAPNP_DIR, schema), typ],
-                       input=text.encode(), stdout=subprocess.PIPE, stderr=subprocess.PIPE, timeout=120)
+def _capnp_encode(schema, typ, text, segment_words=None):
+    # segment_words: write every message in SEVERAL segments of about that many words (real-size files are multi-segment; a
+    # truncated multi-segment message is read lazily, so the decoder can throw long after the reader was constructed)
+    cmd = ["capnp", "encode", "--packed"] + (["--segment-size=%d" % segment_words] if segment_words else []) + [os.path.join(CAPNP_DIR, schema), typ]
+    r = subprocess.run(cmd, input=text.encode(), stdout=subprocess.PIPE, stderr=subprocess.PIPE, timeout=120)
     if r.returncode != 0:
         raise RuntimeError("capnp encode %s %s failed: %s" % (schema, typ, r.stderr.decode(errors="replace")[-2000:]))
     return r.stdout
@@ -393,7 +395,7 @@ def cache_texts(ds):
     return coll, node_files, line_files
 
 
-def write_cache(ds, dirpath, omit=()):
+def write_cache(ds, dirpath, omit=(), segment_words=None):
     """Write the complete cache directory of the gen.Dataset `ds` (data status READY when ds has lines, paths,
     scenarios, trips...).  `omit`: relative file names to leave out (e.g. "scenarios.capnpbin", or a per-line file)
     for data-status experiments.  One `capnp encode` process per schema, run concurrently; the per-stop and
@@ -416,7 +418,7 @@ def write_cache(ds, dirpath, omit=()):
 
     def run(job):
         schema, typ, text, names = job
-        data = _capnp_encode(schema, typ, text)
+        data = _capnp_encode(schema, typ, text, segment_words)
         return list(zip(names, [data] if len(names) == 1 else split_packed(data, len(names))))
     with ThreadPoolExecutor(max_workers=len(jobs)) as ex:
         results = list(ex.map(run, jobs))
